@@ -246,6 +246,27 @@ WHITELIST = [
      "Option<Ordering>", "fun d ts => some (SqlDt.Tr.cmpInt (SqlDt.Timestamp.new d 0) ts)"),
     ("date.rs", "PartialEq<Timestamp> for Date", "eq", "Date.eq_timestamp", "self, other: Timestamp",
      "bool", "fun d ts => decide (SqlDt.Timestamp.new d 0 = ts)"),
+    # ---- the other mixed comparisons (C12, C17): comparison of the microsecond counts
+    ("time.rs", "PartialEq<IntervalDT> for Time", "eq", "Time.eq_interval_dt", "self, other: IntervalDT",
+     "bool", "fun t i => decide (t = i)"),
+    ("time.rs", "PartialOrd<IntervalDT> for Time", "partial_cmp", "Time.partial_cmp_interval_dt", "self, other: IntervalDT",
+     "Option<Ordering>", "fun t i => some (SqlDt.Tr.cmpInt t i)"),
+    ("interval.rs", "PartialEq<Time> for IntervalDT", "eq", "IntervalDT.eq_time", "self, other: Time",
+     "bool", "fun i t => decide (i = t)"),
+    ("interval.rs", "PartialOrd<Time> for IntervalDT", "partial_cmp", "IntervalDT.partial_cmp_time", "self, other: Time",
+     "Option<Ordering>", "fun i t => some (SqlDt.Tr.cmpInt i t)"),
+    ("timestamp.rs", "PartialEq<Date> for Timestamp", "eq", "Timestamp.eq_date", "self, other: Date",
+     "bool", "fun ts d => decide (ts = SqlDt.Timestamp.new d 0)"),
+    ("timestamp.rs", "PartialOrd<Date> for Timestamp", "partial_cmp", "Timestamp.partial_cmp_date", "self, other: Date",
+     "Option<Ordering>", "fun ts d => some (SqlDt.Tr.cmpInt ts (SqlDt.Timestamp.new d 0))"),
+    ("oracle.rs", "PartialEq<OracleDate> for Timestamp", "eq", "Timestamp.eq_oracle_date", "self, other: OracleDate",
+     "bool", "fun ts od => decide (ts = od)"),
+    ("oracle.rs", "PartialEq<Timestamp> for OracleDate", "eq", "OracleDate.eq_timestamp", "self, other: Timestamp",
+     "bool", "fun od ts => decide (od = ts)"),
+    ("oracle.rs", "PartialEq<OracleDate> for Date", "eq", "Date.eq_oracle_date", "self, other: OracleDate",
+     "bool", "fun d od => decide (SqlDt.Timestamp.new d 0 = od)"),
+    ("oracle.rs", "PartialEq<Date> for OracleDate", "eq", "OracleDate.eq_date", "self, other: Date",
+     "bool", "fun od d => decide (od = SqlDt.Timestamp.new d 0)"),
     # ---- oracle.rs
     ("oracle.rs", "OracleDate", "new", "OracleDate.new", "date: Date, time: Time", "OracleDate", "SqlDt.OracleDate.new"),
     ("oracle.rs", "OracleDate", "is_valid_date", "OracleDate.is_valid_date", "usecs: i64", "bool",
